@@ -85,6 +85,11 @@ def isEmptyVal : Ty → J → Bool
   | .ptr _, _ => false                                         -- a non-null value: the pointer is set
   | _, _ => false
 
+def neverEmpty : Ty → Bool
+  | .struct _ => true
+  | .time => true
+  | _ => false
+
 mutual
 /-- the zero value of a type as `json.Marshal` prints it -/
 def zeroJ : Ty → J
@@ -100,24 +105,33 @@ def zeroJ : Ty → J
   | .struct fs => .obj (zeroFields fs)
 def zeroFields : Fields → List (String × J)
   | .nil => []
-  | .cons key om _ t rest => if om && (match t with | .struct _ => false | .time => false | _ => true) then zeroFields rest
-                               else (key, zeroJ t) :: zeroFields rest
+  | .cons key om _ t rest => if om && !neverEmpty t then zeroFields rest else (key, zeroJ t) :: zeroFields rest
 end
-
-def neverEmpty : Ty → Bool
-  | .struct _ => true
-  | .time => true
-  | _ => false
 
 mutual
 /-- `json.Marshal (json.Unmarshal j)` for a well-typed `j` -/
 def norm : Ty → J → J
-  | t, .null => zeroJ t
-  | .int, .num tr _ => .num tr (toString tr)
-  | .ptr t, j => norm t j
-  | .slice t, .arr l => .arr (l.map (fun x => norm t x))
-  | .struct fs, .obj kv => .obj (normFields fs kv)
-  | _, j => j
+  | .ptr t, j => (match j with
+      | .null => .null
+      | _ => norm t j)
+  | .slice t, j => (match j with
+      | .null => .null
+      | .arr l => .arr (l.map (fun x => norm t x))
+      | _ => j)
+  | .struct fs, j => (match j with
+      | .null => .obj (zeroFields fs)
+      | .obj kv => .obj (normFields fs kv)
+      | _ => j)
+  | .int, j => (match j with
+      | .null => .num 0 "0"
+      | .num tr _ => .num tr (toString tr)
+      | _ => j)
+  | .str, j => (match j with | .null => .str "" | _ => j)
+  | .enum _, j => (match j with | .null => .str "" | _ => j)
+  | .float, j => (match j with | .null => .num 0 "0" | _ => j)
+  | .bool, j => (match j with | .null => .bool false | _ => j)
+  | .time, j => (match j with | .null => .str "0001-01-01T00:00:00Z" | _ => j)
+  | .any, j => j
 def normFields : Fields → List (String × J) → List (String × J)
   | .nil, _ => []
   | .cons key om _ t rest, kv =>
